@@ -250,7 +250,23 @@ func (h *harness) crashcheck(k int) (event, error) {
 			}
 			tags = append(tags, map[string]interface{}{"name": t.Name, "def": def, "color": t.Color, "convs": nn(t.Converters)})
 		}
-		ev["recovered_names"] = map[string]interface{}{"idx": names, "tags": tags}
+		// which file serves each stream id (newest file of the served list that holds it), and the next stream id
+		view := [][]interface{}{}
+		serving := map[int]string{}
+		for _, fn := range st0.Indexes { // oldest first: later files overwrite
+			for _, id := range st0.IndexIDs[fn] {
+				serving[int(id)] = filepath.Base(fn)
+			}
+		}
+		vids := []int{}
+		for id := range serving {
+			vids = append(vids, id)
+		}
+		sort.Ints(vids)
+		for _, id := range vids {
+			view = append(view, []interface{}{id, serving[id]})
+		}
+		ev["recovered_names"] = map[string]interface{}{"idx": names, "tags": tags, "next": st0.NextStreamID, "view": view}
 	}
 	// let the recovered service settle
 	rh.prev = st0
@@ -485,11 +501,16 @@ func describeDisk(base, cut string) map[string]interface{} {
 		}
 		// "complete" = readable: the header (with the magic, written last) and all sections can be loaded
 		complete := false
+		ids := []int{}
 		if r, err := index.NewReader(filepath.Join(base, "index", e.Name())); err == nil {
 			complete = true
+			for id := range r.StreamIDs() {
+				ids = append(ids, int(id))
+			}
+			sort.Ints(ids)
 			r.Close()
 		}
-		idx = append(idx, map[string]interface{}{"name": e.Name(), "complete": complete})
+		idx = append(idx, map[string]interface{}{"name": e.Name(), "complete": complete, "ids": ids})
 	}
 	states := []map[string]interface{}{}
 	ents, _ = os.ReadDir(filepath.Join(base, "state"))
